@@ -297,16 +297,19 @@ fn position_in_range(start: (u32, u32), end: (u32, u32), target: LineChar) -> bo
     true
 }
 
+/// The byte offset in `source` of the given line and (UTF-16) character.
 fn get_index_of_line_char(source: &str, line_char: LineChar) -> u32 {
     let mut remaining_line_breaks = line_char.line;
-    for (index, char) in source.chars().enumerate() {
-        if char == '\n' {
-            remaining_line_breaks -= 1;
-        }
-
-        if remaining_line_breaks == 0 {
-            // Why were we off by one to begin with? This is a bad fix!
-            return index as u32 + line_char.character + 1;
+    let mut remaining_code_units = line_char.character;
+    for (index, char) in source.char_indices() {
+        if remaining_line_breaks > 0 {
+            if char == '\n' {
+                remaining_line_breaks -= 1;
+            }
+        } else if remaining_code_units == 0 {
+            return index as u32;
+        } else {
+            remaining_code_units = remaining_code_units.saturating_sub(char.len_utf16() as u32);
         }
     }
 
